@@ -176,25 +176,31 @@ def endTx (w : World) (i : Nat) (keepExplicit : Bool) : World :=
   let s := w.sess i
   setSess w i { s with active := false, explicit := keepExplicit && s.explicit, work := [], log := [] }
 
-/-- `mergeRoots` of `doCommit`: working and staged merged separately, each skipped when equal;
-returns merged (working, staged) and whether the *working* merge left conflicts -/
-def txMerge (E S : WS) (W St : Root) : Root × Root × Bool :=
-  let (mw, cw) := if rootEq E.working W then (W, []) else mergeRoots E.working W S.working
-  let (ms, _) := if rootEq E.staged St then (St, []) else mergeRoots E.staged St S.staged
-  (mw, ms, !cw.isEmpty)
+/-- `workingAndStagedEqual(existingWs, startState)`: nobody committed since the transaction began -/
+def isFF (E S : WS) : Bool := rootEq E.working S.working && rootEq E.staged S.staged
+
+/-- `mergeRoots` of `doCommit`, working root: skipped when `rootsEqual(existing, ours)`; second
+component: the merge left conflicts (`validateWorkingSetForCommit` then rolls back) -/
+def mergedWorking (E S : WS) (W : Root) : Root × Bool :=
+  if rootEq E.working W then (W, false)
+  else ((mergeRoots E.working W S.working).1, !(mergeRoots E.working W S.working).2.isEmpty)
+
+/-- `mergeRoots` of `doCommit`, staged root: conflicts keep the existing value and are NOT validated -/
+def mergedStaged (E S : WS) (St : Root) : Root :=
+  if rootEq E.staged St then St else (mergeRoots E.staged St S.staged).1
 
 /-- `doCommit` with `txCommit`/`doltCommit`, the whole body under the branch lock.  `dolt` = also
 create a dolt commit from `St` (the staged root the session wants to commit).
 `none` = rejected (conflicts): nothing written. -/
 def doCommit (E S : WS) (W St : Root) (dolt : Bool) : Option WS :=
-  let ff := rootEq E.working S.working && rootEq E.staged S.staged
-  let (mw, ms, conflict) := if ff then (W, St, false) else txMerge E S W St
-  if conflict then none
+  let mw := if isFF E S then (W, false) else mergedWorking E S W
+  let ms := if isFF E S then St else mergedStaged E S St
+  if mw.2 then none
   else if dolt then
     -- doltCommit: merge a moved HEAD into the staged root, commit it
     let st := if rootEq E.head S.head then ms else (mergeRoots ms E.head S.head).1
-    some ⟨mw, st, st⟩
-  else some ⟨mw, ms, E.head⟩
+    some ⟨mw.1, st, st⟩
+  else some ⟨mw.1, ms, E.head⟩
 
 /-- COMMIT (or the implicit commit of autocommit / BEGIN / SET autocommit=1) -/
 def commitTx (w : World) (i : Nat) (keepExplicit : Bool) : World × Res :=
